@@ -375,16 +375,136 @@ const STUDIES: &[&str] = &[
     "7k/5K2/6Q1/8/8/8/8/6r1 b - - 0 1",
 ];
 
+/// Black-box part of C05: the value the USER sees. A fresh process of the release binary (hooks off) is given
+/// `position fen P` and `go depth d` (d = 1..3); every `info depth k score cp X [pv m ...]` line it prints
+/// must carry the class of the reference value V(P, k), its first pv move (when printed) must attain V(P, k),
+/// and the bestmove must attain V(P, d). This covers what the in-process part cannot: go-parameter parsing,
+/// the printing path, release-build arithmetic.
+fn c05_blackbox(ctx: &Ctx) -> Stats {
+    use crate::bb;
+    use std::time::Duration;
+    let n = ctx.budget(96, 1600);
+    let workers = ctx.workers.min(8);
+    parallel(workers, |w| {
+        let mut st = Stats::new();
+        let mut rng = Rng::new(ctx.seed, 5600 + w as u64);
+        let mut rs = RefSearch::new(if ctx.quick() { 400_000 } else { 3_000_000 }, 20_000);
+        for k in 0..(n / workers as u64 + 1) {
+            if k >= 3 && ctx.past(0.97) {
+                break;
+            }
+            let p = match k % 5 {
+                0 => gen::g_battery_loaded(&mut rng),
+                1 => gen::g_underpromo(&mut rng),
+                2 => gen::g_small(&mut rng, 8),
+                _ => gen::g_game_pos(&mut rng),
+            };
+            let legal = p.legal_moves();
+            if legal.len() < 2 {
+                continue;
+            }
+            let d = 1 + rng.below(3) as u8;
+            rs.reset();
+            let mut vals = vec![];
+            let mut ok = true;
+            for kk in 1..=d {
+                match rs.value(&p, kk) {
+                    Ok(v) => vals.push(v),
+                    Err(sk) => {
+                        bump_skip(&mut st, &sk);
+                        ok = false;
+                        break;
+                    }
+                }
+            }
+            if !ok {
+                continue;
+            }
+            let mut e = match bb::Engine::spawn(&ctx.engine_bin) {
+                Ok(e) => e,
+                Err(m) => {
+                    st.inconclusive.push(format!("cannot start the engine binary: {}", m));
+                    return st;
+                }
+            };
+            let script = vec![format!("position fen {}", p.to_fen()), format!("go depth {}", d)];
+            let case = J::obj(vec![("kind", J::s("blackbox")), ("fen", J::s(p.to_fen())), ("depth", J::i(d as i64)), ("commands", J::arr_s(script.clone()))]);
+            let _ = e.send(&script[0]);
+            let lines = match e.command(&script[1], Duration::from_secs(120)) {
+                Ok(l) => l,
+                Err(_) => {
+                    st.bump("blackbox_go_failed");
+                    continue; // C03 judges missing answers
+                }
+            };
+            e.quit();
+            st.case(hash64(&(p.key(), d, 0xbbu8)), true);
+            st.bump("blackbox_searches_judged");
+            st.sample_tagged("blackbox", || case.clone());
+            for l in lines.iter() {
+                let t: Vec<&str> = l.split_whitespace().collect();
+                if t.first() != Some(&"info") {
+                    continue;
+                }
+                let kk = t.iter().position(|x| *x == "depth").and_then(|i| t.get(i + 1)).and_then(|x| x.parse::<u8>().ok());
+                let sc = t.iter().position(|x| *x == "cp").and_then(|i| t.get(i + 1)).and_then(|x| x.parse::<i64>().ok());
+                let pv = t.iter().position(|x| *x == "pv").and_then(|i| t.get(i + 1)).map(|x| x.to_string());
+                let (Some(kk), Some(sc)) = (kk, sc) else { continue };
+                if kk < 1 || kk > d {
+                    continue;
+                }
+                st.bump("blackbox_info_lines_judged");
+                let want = vals[kk as usize - 1];
+                let got = class(sc.clamp(i32::MIN as i64, i32::MAX as i64) as i32);
+                if got != want {
+                    st.violation(
+                        format!("C05:blackbox-value:{}:{}", p.to_fen(), kk),
+                        format!("fresh process, 'position fen {}' 'go depth {}': it prints '{}' but the minimax value at depth {} is {}", p.to_fen(), d, l, kk, want.show()),
+                        case.clone(),
+                    );
+                    break;
+                }
+                if let Some(m) = pv.and_then(|u| legal.iter().find(|x| x.uci() == u).cloned()) {
+                    if let Ok(v) = rs.move_value(&p, &m, kk) {
+                        if v != want {
+                            st.violation(
+                                format!("C05:blackbox-pv:{}:{}", p.to_fen(), kk),
+                                format!("fresh process, 'position fen {}' 'go depth {}': it prints '{}' but {} has minimax value {} at depth {} while the position's is {}", p.to_fen(), d, l, m.uci(), v.show(), kk, want.show()),
+                                case.clone(),
+                            );
+                            break;
+                        }
+                    }
+                }
+            }
+            let ans = lines.iter().find(|l| l.starts_with("bestmove")).and_then(|l| l.split_whitespace().nth(1)).unwrap_or("").to_string();
+            if let Some(m) = legal.iter().find(|x| x.uci() == ans) {
+                if let Ok(v) = rs.move_value(&p, m, d) {
+                    if v != vals[d as usize - 1] {
+                        st.violation(
+                            format!("C05:blackbox-bestmove:{}:{}", p.to_fen(), d),
+                            format!("fresh process, 'position fen {}' 'go depth {}': bestmove {} has minimax value {} while the position's is {}", p.to_fen(), d, ans, v.show(), vals[d as usize - 1].show()),
+                            case.clone(),
+                        );
+                    }
+                }
+            }
+            // an illegal or missing bestmove is C03's finding
+        }
+        st
+    })
+}
+
 pub fn run_c05(ctx: &Ctx) -> i32 {
     let spec = Spec {
         level: "exploration",
-        rule: "a case is (position, depth, mode): mode 'id' = find_best_move on a fresh engine at depth 1..3 (public API, every run judged), mode 'fixed' = one fixed-depth search at depth 4..5 on a fresh engine (runs in which a result cached by a deeper search was returned are excluded and counted). The score class must equal the reference minimax value (leaves = the engine's own full-window quiescence), the returned move must attain it, every entry left in the transposition table must be a true claim about the reference value of the position it belongs to, and quiescence must be window-consistent. Positions: game positions of all phases, corpus, few-men positions, synthetic and promotion studies, stalemate swindles (a cornered king plus one piece to give away), batteries (a slider aimed at a king through one piece of its own side; 'loaded' ones in which one ply above the horizon a material-winning capture and a quiet discovered-check mate are both available); positions whose reference tree or quiescence exceeds the node budget are skipped and counted. Distinct by (position, depth, mode); non-trivial when the position has more than one legal move",
+        rule: "a case is (position, depth, mode): mode 'id' = find_best_move on a fresh engine at depth 1..3 (public API, every run judged), mode 'fixed' = one fixed-depth search at depth 4..5 on a fresh engine (runs in which a result cached by a deeper search was returned are excluded and counted). The score class must equal the reference minimax value (leaves = the engine's own full-window quiescence), the returned move must attain it, every entry left in the transposition table must be a true claim about the reference value of the position it belongs to, and quiescence must be window-consistent. Black-box part: a fresh process of the release binary is given 'position fen P', 'go depth d' (d = 1..3); every 'info depth k score cp X pv m' line must carry the class of V(P, k) and a first pv move attaining it, and the bestmove must attain V(P, d). Positions: game positions of all phases, corpus, few-men positions, synthetic and promotion studies, stalemate swindles (a cornered king plus one piece to give away), batteries (a slider aimed at a king through one piece of its own side; 'loaded' ones in which one ply above the horizon a material-winning capture and a quiet discovered-check mate are both available); positions whose reference tree or quiescence exceeds the node budget are skipped and counted. Distinct by (position, depth, mode); non-trivial when the position has more than one legal move",
         assumptions: vec![
             "the reference rules implementation is correct (perft self-test at every run)".into(),
             "leaves are scored by the engine's own quiescence search on a full window (as the property defines the reference); that search is not itself compared with anything except for window consistency".into(),
             "depths above 5 and non-fresh engines are outside this check".into(),
         ],
-        required: if ctx.replay.is_some() { vec![] } else { vec!["judged_depth_1_id", "judged_depth_2_id", "judged_depth_3_id", "judged_depth_4_fixed", "cached_claims_audited", "claims_exact", "claims_lower", "claims_upper", "quiescence_windows_checked", "runs_with_same_depth_cached_result_returned", "value_attained_only_by_underpromotion", "value_attained_by_a_single_move", "depth_4_fixed_on_positions_with_many_men", "value_rests_on_the_stalemate_rule_at_an_interior_node", "value_is_a_draw_saved_by_stalemate_inside_the_tree", "loaded_battery_cases_judged"] },
+        required: if ctx.replay.is_some() { vec![] } else { vec!["judged_depth_1_id", "judged_depth_2_id", "judged_depth_3_id", "judged_depth_4_fixed", "cached_claims_audited", "claims_exact", "claims_lower", "claims_upper", "quiescence_windows_checked", "runs_with_same_depth_cached_result_returned", "value_attained_only_by_underpromotion", "value_attained_by_a_single_move", "depth_4_fixed_on_positions_with_many_men", "value_rests_on_the_stalemate_rule_at_an_interior_node", "value_is_a_draw_saved_by_stalemate_inside_the_tree", "loaded_battery_cases_judged", "blackbox_searches_judged", "blackbox_info_lines_judged"] },
         exhaustive: false,
         extra: vec![],
     };
@@ -442,7 +562,7 @@ pub fn run_c05(ctx: &Ctx) -> i32 {
         let mut i = 0u64;
         let target = share(n_id);
         let mut judged = 0;
-        while judged < target && !ctx.past(0.5) {
+        while judged < target && !ctx.past(0.4) {
             let p = c05_position(&mut rng, i);
             i += 1;
             let d = 1 + rng.below(3) as u8;
@@ -461,7 +581,7 @@ pub fn run_c05(ctx: &Ctx) -> i32 {
         // depth 1 (root depth 2) or 2 (root depth 3)
         let target = share(n_id / 6);
         let mut done = 0;
-        while done < target && (done < 2 || !ctx.past(0.6)) {
+        while done < target && (done < 2 || !ctx.past(0.5)) {
             let p = gen::g_battery_loaded(&mut rng);
             let d = if rng.chance(2, 3) { 2 } else { 3 };
             let before = st.evals;
@@ -477,7 +597,7 @@ pub fn run_c05(ctx: &Ctx) -> i32 {
         // depth 4..5 single fixed-depth searches on few-men positions
         let target = share(n_fixed);
         let mut tried = 0;
-        while tried < target && (tried < 2 || !ctx.past(0.7)) {
+        while tried < target && (tried < 2 || !ctx.past(0.6)) {
             let men = if rng.chance(1, 2) { 6 } else { 8 };
             let p = gen::g_small(&mut rng, men);
             let d = if ctx.quick() || rng.chance(3, 4) { 4 } else { 5 };
@@ -494,7 +614,7 @@ pub fn run_c05(ctx: &Ctx) -> i32 {
         let target = ctx.budget(24, 400) / ctx.workers as u64 + 1;
         let mut tried = 0;
         let mut attempts = 0;
-        while tried < target && attempts < target * 6 && (tried < 1 || !ctx.past(0.85)) {
+        while tried < target && attempts < target * 6 && (tried < 1 || !ctx.past(0.72)) {
             attempts += 1;
             let p = if rng.chance(1, 2) {
                 gen::g_game_pos(&mut rng)
@@ -520,7 +640,7 @@ pub fn run_c05(ctx: &Ctx) -> i32 {
         // quiescence window consistency
         let mut s = Searcher::new();
         for k in 0..share(n_qw) {
-            if k >= 8 && ctx.out_of_time() {
+            if k >= 8 && ctx.past(0.8) {
                 break;
             }
             let p = match k % 4 {
@@ -533,6 +653,10 @@ pub fn run_c05(ctx: &Ctx) -> i32 {
         }
         st
     });
+    let mut total = total;
+    if std::env::var("VERIF_NO_BLACKBOX").is_err() {
+        total.merge(c05_blackbox(ctx));
+    }
     finalize(ctx, spec, total)
 }
 
